@@ -1194,6 +1194,45 @@ theorem C32_accepts_sound (m : Nat) (to : Int) (ls : List Label) (h : (ts (Cfg.o
   have hr := TS.reachable_of_run _ hs
   exact ⟨s, hs, C32_exclusive m to s hr, C32_idle_cap m to s hr, fun w hw => C32_idle_clean m to s hr w hw⟩
 
+/-- the thread a label belongs to -/
+def Label.tid : Label → Option Tid
+  | .tick _ | .die _ => none
+  | .acq t | .rel t | .rdClosed t _ | .wrClosed t | .clock t _ | .spawn t _ _ | .spawnFail t | .poll t _ _ | .tclose t _
+  | .connect t _ | .refused t | .raised t | .got t _ | .use t _ _ | .ret t _ _ _ | .done t | .closeCall t | .closeDone t
+  | .obsCall t | .obsVal t _ => some t
+
+/-- a step only moves the program counter of the label's own thread -/
+theorem step_pc_other {c : Cfg} {s s' : St} {l : Label} (h : step c s l = some s') (t : Tid) (ht : l.tid ≠ some t) :
+    s'.pc t = s.pc t := by
+  cases l <;> simp only [Label.tid, ne_eq, Option.some.injEq, not_false_eq_true, reduceCtorEq] at ht <;>
+    simp only [step, stepAcq, stepRel, stepPoll, stepTclose, setPc, setW] at h <;>
+    (repeat' (split at h)) <;>
+    first
+      | (cases h; done)
+      | (cases h; rfl)
+      | (cases h; exact upd_other _ _ (fun e => ht e.symm))
+
+/-- **every hand-over is vouched for in the same borrow** (shape of the transition relation, any configuration): a thread
+reaches the hand-over point `bGot w` only by releasing the lock after a health check of `w` by that same thread that found
+it alive (`poll t w true`), or after spawning `w` itself -/
+theorem C32_handover_checked (c : Cfg) (s s' : St) (l : Label) (h : (ts c).step s l = some s') (t : Tid) (w : Wid) :
+    (s'.pc t = .bGot w → s.pc t = .bGot w ∨ (l = .rel t ∧ (s.pc t = .bHave w ∨ s.pc t = .bNewL w))) ∧
+    (s'.pc t = .bHave w → s.pc t = .bHave w ∨ (l = .poll t w true ∧ ∃ k, s.pc t = .bPoll k w)) ∧
+    (s'.pc t = .bNewL w → s.pc t = .bNewL w ∨ (l = .acq t ∧ s.pc t = .bNew w)) ∧
+    (s'.pc t = .bNew w → s.pc t = .bNew w ∨ (∃ k, l = .spawn t w k ∧ s.pc t = .bSpawn k)) := by
+  replace h : step c s l = some s' := h
+  by_cases ht : l.tid = some t
+  · cases l <;> simp only [Label.tid, Option.some.injEq, reduceCtorEq] at ht <;> subst ht <;>
+      simp only [step, stepAcq, stepRel, stepPoll, stepTclose, setPc, setW] at h <;>
+      (repeat' (split at h)) <;>
+      first
+        | (cases h; done)
+        | (cases h; simp_all [upd_same]; done)
+        | (cases h; simp only [upd_same]; simp_all)
+  · have := step_pc_other h t ht
+    rw [this]
+    exact ⟨Or.inl, Or.inl, Or.inl, Or.inl⟩
+
 /-! ### non-vacuity: a run with a spawn, a clean return, a reuse, an eviction at `max_idle = 0`, an abandoned stream -/
 
 /-- borrower 1 spawns worker 0, makes a call, returns it; borrower 2 is handed the same worker (LIFO reuse) -/
